@@ -212,4 +212,54 @@ instance (listing out : List Utxo) : Decidable (P16sort listing out) := by unfol
 /-- `new(big.Int).SetBytes(amount) / 10^10`, then `.Uint64()` (low 64 bits) -/
 def msgAmount (amountBytes : Bytes) : Nat := (beToNat amountBytes / 10 ^ 10) % M
 
+/-! ### which proposals of a batch are executed (`proposalsForExecution`) -/
+
+/-- status of a deposit in the proposal store; the last two are the store's faults (status read fails / status write fails
+    while the status reads as missing) -/
+inductive PStatus | missing | failed | pending | executed | readErr | writeErr
+deriving DecidableEq, Repr
+
+/-- identity of a deposit: (source domain, destination domain, deposit nonce) -/
+abbrev Key := Nat × Nat × Nat
+
+structure BProp where
+  key : Key
+  prp : Prp
+deriving Repr, DecidableEq
+
+abbrev Store := List (Key × PStatus)
+
+/-- last write wins; an unknown deposit is `missing` -/
+def lookup (st : Store) (k : Key) : PStatus :=
+  match st.find? (·.1 = k) with
+  | some e => e.2
+  | none => .missing
+
+def executable (s : PStatus) : Bool := s = .missing || s = .failed
+
+/-- the loop of `proposalsForExecution`: look the deposit up, skip it unless missing/failed, mark it pending, select it;
+    a store fault aborts the batch (`none`).  Returns the selection and the store afterwards.  Because the mark is written
+    before the next look-up, a second copy of the same deposit later in the batch is skipped. -/
+def forExec : Store → List BProp → Option (List BProp) × Store
+  | st, [] => (some [], st)
+  | st, p :: ps =>
+    match lookup st p.key with
+    | .readErr | .writeErr => (none, st)
+    | .missing | .failed =>
+      let r := forExec ((p.key, .pending) :: st) ps
+      (r.1.map (p :: ·), r.2)
+    | _ => forExec st ps
+
+/-- **P16 (selection)** for a candidate selection `sel` out of batch `ps` with the store as it was before the batch:
+    no deposit is selected twice, only deposits whose status was missing/failed are selected, and the selection is a
+    subsequence of the batch (nothing invented, order kept) -/
+def P16sel (st : Store) (ps sel : List BProp) : Prop :=
+  (sel.map (·.key)).Nodup ∧ (∀ p ∈ sel, executable (lookup st p.key) = true) ∧ sel.Sublist ps
+
+instance (st : Store) (ps sel : List BProp) : Decidable (P16sel st ps sel) := by unfold P16sel; infer_instance
+
+/-- the withdrawal built for a batch: selection, then `rawTx` for the selected proposals -/
+def withdraw (st : Store) (i : Inp) (ps : List BProp) : Option (List BProp × Option Tx) :=
+  (forExec st ps).1.map fun sel => (sel, rawTx { i with props := sel.map (·.prp) })
+
 end Sygma.C16
